@@ -21,7 +21,7 @@ pub static DEF: PropDef = PropDef {
     id: "C01",
     level: "fault_enumeration",
     engine: "ingest",
-    rule: "random phase: one run = a real Ingester (WAL EveryWrite on the shim disk, object-store catalog, flush_row_count 2..8, flush_interval 1..30 s, WAL segments of ~1..3 entries) with 2..4 writer tasks issuing 3..10 writes of 1..3 rows over two alternating schemas, the flush timer, and a fault profile drawn per run (fault-free / store request failures before+after effect and delays / disk ENOSPC (also after a partial write)-EIO-short-torn writes with tokio's deferred error reporting / a failed fsync followed by power loss (dirty pages of the failed sync are dropped) / node crashes at any quiescent point or inside a file operation, up to 3 crash-restart rounds incl. crashes during recovery), ended either by graceful shutdown or by crash+restart+shutdown; sweep phase (fault enumeration): for generated workloads, one run per (object-store request index of the fault-free run) x {crash before, crash after, fail before, fail after}; distinct = distinct (variant, grant/fault/crash sequence); non-trivial = completed AND (interleaved OR a fault/crash fired)",
+    rule: "random phase: one run = a real Ingester (WAL EveryWrite on the shim disk, object-store catalog, flush_row_count 2..8, flush_interval 1..30 s, WAL segments of ~1..3 entries) with 2..4 writer tasks issuing 3..10 writes of 1..3 rows over five alternating schemas (two that differ in columns, three that differ from the first only in nullability / column order / metadata), the flush timer, and a fault profile drawn per run (fault-free / store request failures before+after effect and delays / disk ENOSPC (also after a partial write)-EIO-short-torn writes with tokio's deferred error reporting / a failed fsync followed by power loss (dirty pages of the failed sync are dropped) / node crashes at any quiescent point or inside a file operation, up to 3 crash-restart rounds incl. crashes during recovery), ended either by graceful shutdown or by crash+restart+shutdown; sweep phase (fault enumeration): for generated workloads, one run per (object-store request index of the fault-free run) x {crash before, crash after, fail before, fail after}; distinct = distinct (variant, grant/fault/crash sequence); non-trivial = completed AND (interleaved OR a fault/crash fired)",
     quick_runs: 4000,
     thorough_runs: 60_000,
     run_cap_ms: 30_000,
@@ -144,7 +144,7 @@ fn scen(spec: RunSpec) -> ScenFut {
             cfg.flush_size_bytes = [400usize, 2000][sim::w(2) as usize];
         }
         cfg.flush_interval = Duration::from_secs([1u64, 5, 30][sim::w(3) as usize]);
-        cfg.wal = WalConfig { wal_dir: dir.clone().into(), max_segment_size: [1usize, 1200, 2500, 1 << 20][sim::w(4) as usize], sync_mode: WalSyncMode::EveryWrite, enabled: true };
+        cfg.wal = WalConfig { wal_dir: dir.clone().into(), max_segment_size: [1usize, 1200, 2500, 1 << 20, 0][sim::w(5) as usize], sync_mode: WalSyncMode::EveryWrite, enabled: true };
         let writers = sim::w_range(2, 4);
         // fault profile
         let sweep: Option<(u64, Fault)> = spec.variant.strip_prefix("sweep:").and_then(|s| {
@@ -252,7 +252,7 @@ fn scen(spec: RunSpec) -> ScenFut {
         let total_ops = writers * sim::w_range(3, 10);
         let mut q = VecDeque::new();
         for _ in 0..total_ops {
-            let variant = if sim::w(4) == 3 { 1 } else { 0 };
+            let variant = [0u32, 0, 0, 0, 1, 1, 5, 6, 7][sim::w(9) as usize];
             let n = sim::w_range(1, 3);
             let rows: Vec<Row> = (0..n).map(|_| gen.row(now - sim::w(1000) as i64 * 1_000_003, false)).collect();
             let pause = [0u64, 0, 0, 200, 1500][sim::w(5) as usize];
